@@ -57,6 +57,20 @@ type Ledger struct {
 	ncall     int
 	calls     []LedgerCall
 	cctpKey   *storetypes.KVStoreKey
+	// panicFaults: a refused call panics instead of returning an error (a dependency keeper that panics, as the real
+	// bank keeper does for a missing module account); the application turns such a panic into a failed transaction
+	panicFaults bool
+	panicked    bool
+}
+
+type ledgerPanic struct{ what string }
+
+func (l *Ledger) refuse(what string) error {
+	if l.panicFaults {
+		l.panicked = true
+		panic(ledgerPanic{what})
+	}
+	return fmt.Errorf("ledger double: %s refused", what)
 }
 
 func (l *Ledger) env() bool {
@@ -122,7 +136,7 @@ func (l *Ledger) SendCoinsFromAccountToModule(ctx context.Context, senderAddr sd
 	call.OK = ok
 	l.calls = append(l.calls, call)
 	if !ok {
-		return fmt.Errorf("ledger double: transfer refused")
+		return l.refuse("transfer")
 	}
 	a := amt[0].Amount.BigInt()
 	setBig(st, balKey(senderAddr, amt[0].Denom), new(big.Int).Sub(getBig(st, balKey(senderAddr, amt[0].Denom)), a))
@@ -146,7 +160,7 @@ func (l *Ledger) Burn(ctx sdk.Context, msg *ftftypes.MsgBurn) (*ftftypes.MsgBurn
 	call.OK = ok
 	l.calls = append(l.calls, call)
 	if !ok {
-		return nil, fmt.Errorf("ledger double: burn refused")
+		return nil, l.refuse("burn")
 	}
 	a := msg.Amount.Amount.BigInt()
 	setBig(st, balKey(ModuleAddress, l.mintDenom), new(big.Int).Sub(getBig(st, balKey(ModuleAddress, l.mintDenom)), a))
@@ -167,7 +181,7 @@ func (l *Ledger) Mint(ctx sdk.Context, msg *ftftypes.MsgMint) (*ftftypes.MsgMint
 	call.OK = ok
 	l.calls = append(l.calls, call)
 	if !ok {
-		return nil, fmt.Errorf("ledger double: mint refused")
+		return nil, l.refuse("mint")
 	}
 	a := msg.Amount.Amount.BigInt()
 	setBig(st, balKey(to, l.mintDenom), new(big.Int).Add(getBig(st, balKey(to, l.mintDenom)), a))
@@ -362,6 +376,7 @@ type TxResult struct {
 // value, branch the multistore, route through the MsgServiceRouter, write back only on success.
 func (in *Instance) RunTx(typeURL string, wire []byte, faults []bool) (out TxResult) {
 	in.L.faults, in.L.ncall, in.L.calls = faults, 0, nil
+	in.L.panicFaults, in.L.panicked = panicFaults, false
 	in.writes = nil
 	msgI, err := in.reg.Resolve(typeURL)
 	if err != nil {
@@ -382,7 +397,12 @@ func (in *Instance) RunTx(typeURL string, wire []byte, faults []bool) (out TxRes
 		out.Calls = in.L.calls
 		out.Writes = in.writes
 		if r := recover(); r != nil {
-			out.Res, out.Panic = "panic", fmt.Sprint(r)
+			if _, injected := r.(ledgerPanic); injected {
+				// the dependency panicked on purpose: the application's recovery makes this a failed transaction
+				out.Res, out.Err = "err", "dependency panicked (injected)"
+			} else {
+				out.Res, out.Panic = "panic", fmt.Sprint(r)
+			}
 		}
 	}()
 	res, err := handler(cacheCtx, msg)
@@ -411,6 +431,7 @@ func (in *Instance) RunTx(typeURL string, wire []byte, faults []bool) (out TxRes
 // RunBatch executes several messages as ONE transaction: one branch, in order, written back only if all succeed.
 func (in *Instance) RunBatch(txs [][2]any, faults []bool) (out TxResult, inner []TxResult) {
 	in.L.faults, in.L.ncall, in.L.calls = faults, 0, nil
+	in.L.panicFaults, in.L.panicked = panicFaults, false
 	in.writes = nil
 	cacheCtx, write := in.ctx.CacheContext()
 	in.recOn = true
@@ -419,7 +440,11 @@ func (in *Instance) RunBatch(txs [][2]any, faults []bool) (out TxResult, inner [
 		out.Calls = in.L.calls
 		out.Writes = in.writes
 		if r := recover(); r != nil {
-			out.Res, out.Panic = "panic", fmt.Sprint(r)
+			if _, injected := r.(ledgerPanic); injected {
+				out.Res, out.Err = "err", "dependency panicked (injected)"
+			} else {
+				out.Res, out.Panic = "panic", fmt.Sprint(r)
+			}
 			out.Events = nil
 		}
 	}()
